@@ -8,6 +8,7 @@ PUTS = {
     "bytes::BufMut::put_u64": ("u64", 8), "bytes::BufMut::put_i64": ("i64", 8),
     "bytes::BufMut::put_slice": ("slice", None), "bytes::BufMut::put": ("buf", None),
     "bytes::BufMut::put_bytes": ("fill", None),
+    "bytes::BytesMut::extend_from_slice": ("slice", None),
 }
 # little/native-endian and other writers that must not appear (R-BE) are caught by name
 def is_put(t):
